@@ -24,12 +24,12 @@ from tornado import httputil, web
 from tornado.iostream import StreamClosedError
 
 from sim.env import SimEnv, UNIT
-from props import httprig
+from props import httprig, _rigx
 
 ID = "C05"
 LEVEL = "fault_enumeration"
-QUICK_N = 288
-THOROUGH_N = 4000
+QUICK_N = 208
+THOROUGH_N = 6000
 CHUNK = 1
 RULE = ("gen(seed) draws a workload: 1-2 requests (Content-Length / chunked bodies, stream <= 300 B "
         "in quick), application kind (web sync / async sleeping / @stream_request_body incl. early "
@@ -448,7 +448,8 @@ def gen(rng, tier, index):
     for i in range(nreq):
         te = rng.choice(["cl", "cl", "chunked", "chunked", "none"])
         room = max(0, (budget // nreq) - 70)
-        n = 0 if te == "none" else min(room, rng.choice([0, 1, 2, 5, 17, 40, 64, 100, 150]))
+        sizes_b = [0, 1, 2, 5, 17, 40, 64, 100, 150] + ([250, 400] if tier != "quick" else [])
+        n = 0 if te == "none" else min(room, rng.choice(sizes_b))
         r = {"method": "GET" if te == "none" else rng.choice(["POST", "PUT"]), "te": te,
              "body": _body(rng, n)}
         if te == "chunked":
@@ -736,7 +737,7 @@ def run(scn, full_log=False):
                 kw["body_timeout"] = bt * UNIT
             if it:
                 kw["idle_connection_timeout"] = it * UNIT
-            server, ls, rapp = httprig.start_server(env, _make_app(app_kind, st), **kw)
+            server, ls, rapp = _rigx.start_server(env, _make_app(app_kind, st), **kw)
             box["server"], box["rapp"] = server, rapp
             peer, _srv = httprig.connect(env, ls, window=window)
             box["peer"] = peer
@@ -874,6 +875,10 @@ def run(scn, full_log=False):
                     f"{len(server._connections)} connection(s) still registered")
             else:
                 bad("harness.hang_before_shutdown", "main stuck before shutdown")
+        elif status == "time_cap" and box["shutdown_started"] and not box["shutdown_done"]:
+            # the only timers that far out are idle timeouts of connections that are still open
+            bad("shutdown.hang", "close_all_connections() never completed: nothing left to run but "
+                f"far-future idle timers, {len(server._connections)} connection(s) still registered")
         elif status in ("step_cap", "time_cap"):
             bad("shutdown.livelock", f"{status} after {loop.iterations} iterations "
                 f"(shutdown_started={box['shutdown_started']}, done={box['shutdown_done']})")
